@@ -16,24 +16,20 @@ func verifTrace(method, op, on string) {
 
 // verifAccess reports an access to a guarded field together with what the guarding mutex
 // really looks like at that moment: "read" needs it held (shared or exclusive), "write"
-// needs it held exclusively; otherwise the op is reported with the suffix "!unguarded".
+// needs it held exclusively; otherwise the op is reported with the suffix "!none" / "!shared".
 // Only meaningful in the single-threaded discipline recording, where nobody else holds mu.
 func verifAccess(method, op, on string, mu *sync.RWMutex) {
 	if VerifHook == nil {
 		return
 	}
-	guarded := true
-	if op == "write" {
-		if mu.TryRLock() { // succeeds unless held exclusively
-			mu.RUnlock()
-			guarded = false
-		}
-	} else if mu.TryLock() { // succeeds only if not held at all
+	state := "" // "" = adequately held, "!none" = not held, "!shared" = a write under a shared lock
+	if mu.TryLock() { // succeeds only if not held at all
 		mu.Unlock()
-		guarded = false
+		state = "!none"
+	} else if op == "write" && mu.TryRLock() { // succeeds unless held exclusively
+		mu.RUnlock()
+		state = "!shared"
 	}
-	if !guarded {
-		op += "!unguarded"
-	}
+	op += state
 	VerifHook(method, op, on)
 }
